@@ -20,6 +20,11 @@ def gen_case(rng, i):
     def logu(lo, hi):
         return math.exp(rng.uniform(math.log(lo), math.log(hi)))
     shape = [logu(1e-2, 1e2) for _ in range(n)]
+    if rng.random() < 0.12:
+        # the bottom of the admissible range of the shape, where a single category has a rate far below machine
+        # epsilon before normalisation (0.693 ** (1 / shape))
+        shape = [0.01 * (1.0 + 0.03 * rng.random()) for _ in range(n)]
+        K = rng.choice([1, 1, 2])
     has_inv = kind == "invariant" or (kind == "weibull" and rng.random() < 0.5)
     inv = [rng.choice([0.0, rng.random() * 0.999, logu(1e-6, 0.5)]) for _ in range(n)] if has_inv else None
     has_mu = rng.random() < 0.5
@@ -40,12 +45,14 @@ def gen_case(rng, i):
             hist.append([w, v])
     case["hist"] = hist
     case["how"] = {str(k + 1): rng.choice([0, 0, 1, 2]) for k in range(len(hist))}
+    # which accessor is read first at each stage (they share one dirty flag)
+    case["first"] = {str(k): rng.choice(["rates", "probabilities"]) for k in range(len(hist) + 1)}
     return case
 
 
 def stages_of(case):
     """the configurations the object goes through: initial, then after each assignment"""
-    cur = {k: v for k, v in case.items() if k not in ("hist", "how")}
+    cur = {k: v for k, v in case.items() if k not in ("hist", "how", "first")}
     out = [dict(cur)]
     for w, v in case.get("hist", []):
         cur = dict(cur)
@@ -88,7 +95,13 @@ def run_impl(case):
         if t.dim() == 1:
             t = t.unsqueeze(0).expand(n, -1)
         return [[float(x) for x in row] for row in t]
-    out = [(rows(m.rates()), rows(m.probabilities()))]
+    def read(stage):
+        if case.get("first", {}).get(str(stage)) == "probabilities":
+            pr = rows(m.probabilities())
+            return rows(m.rates()), pr
+        rt = rows(m.rates())
+        return rt, rows(m.probabilities())
+    out = [read(0)]
     ids = dict(shape="shape", inv="inv", mu="mu")
     for w, v in case.get("hist", []):
         par = dic[ids[w]]
@@ -103,7 +116,7 @@ def run_impl(case):
             par.fire_parameter_changed()
         else:
             par.tensor = new
-        out.append((rows(m.rates()), rows(m.probabilities())))
+        out.append(read(len(out)))
     return out
 
 
